@@ -277,7 +277,8 @@ def handleValid (j : Json) : Except String Json := do
   | .error e => pure (Json.mkObj [("err", .str (errName e))])
   | .ok files =>
     let cs := filesOfType files contentTypes
-    pure (Json.mkObj (cs.map fun r => (String.ofList r.path, jM (fun cr => toJson (validT cr.2)) (rootElement o a files r))))
+    pure (Json.mkObj ((cs.map fun r => (String.ofList r.path, jM (fun cr => toJson (validT cr.2)) (rootElement o a files r))) ++
+      [("<package>", toJson (validPkg o a))]))
 
 def handle (line : String) : Json :=
   match Json.parse line with
